@@ -22,7 +22,7 @@ import itertools
 from ..core import AnalysisError
 from ..srcmodel import walk_own, const_str
 
-MAXV = 4
+MAXV = 6
 
 
 # ----------------------------------------------------------------- cells ---
